@@ -1,4 +1,13 @@
 CHECKS = {
+ "C11": {
+  "text": "Generated group elements aimed at the four branches of the quaternion extraction (angle pi +- delta about axes/diagonals, both "
+          "quaternion signs, scales 1e-3..1e3) converted through matrix() and back on every accepted layout with check on/off; Euler "
+          "construction against own Rz Ry Rx and the Euler round trip outside the gimbal band; a rejection clause with perturbations "
+          ">=10x / <=0.1x the stated tolerance. Evidence records how many cases hit each extraction branch. Exploration.",
+  "design_ref": "DESIGN.md section 3, C11",
+  "note": "Reference: own quaternion->matrix formula and elementary rotation matrices. The unconstrained band between 0.1x and 10x tolerance is not asserted.",
+  "technique": "property-based testing: Hypothesis generators with branch-directed inputs, round-trip and reference-matrix oracles",
+ },
  "C05": {
   "text": "Generated group/algebra pairs (regime tables, both dtypes, broadcastable batch shapes) against float64 references built from "
           "the matrix Lie algebra: Adj/AdjT vs Ad(M) a, the two defining identities, every spelling of the retraction (Retr, +, add, "
